@@ -60,6 +60,38 @@ func (m Multi) Sign(msg []byte) []byte {
 	return ms.Marshal()
 }
 
+// Slot is one positional entry of a hand-built multi-signature.
+type Slot struct {
+	Member int  // index of the member key that signs this slot
+	Wrong  bool // signed by Stranger instead (a key that is not a member)
+	Empty  bool // an empty signature
+}
+
+// MultiLayout is a multisig key whose signature list is laid out explicitly (prefixes, omissions,
+// wrong keys, extra and duplicated entries).
+type MultiLayout struct {
+	Members  []Signer
+	Slots    []Slot
+	Stranger Signer
+}
+
+func (m MultiLayout) Pub() crypto.PublicKey { return Multi{Members: m.Members}.Pub() }
+
+func (m MultiLayout) Sign(msg []byte) []byte {
+	ms := crypto.MultiSignature{Sigs: [][]byte{}}
+	for _, s := range m.Slots {
+		switch {
+		case s.Empty:
+			ms.Sigs = append(ms.Sigs, []byte{})
+		case s.Wrong:
+			ms.Sigs = append(ms.Sigs, m.Stranger.Sign(msg))
+		default:
+			ms.Sigs = append(ms.Sigs, m.Members[s.Member].Sign(msg))
+		}
+	}
+	return ms.Marshal()
+}
+
 // Signature mutations.
 const (
 	SigGood = iota
